@@ -496,12 +496,12 @@ fn run_stale(r: usize, seed: u64, alpha: usize) -> Option<Run<'static>> {
     for _ in 0..(alpha + 3) {
         run.next();
     }
-    let fresh_age = t0.elapsed();
-    if fresh_age > timeout / 3 {
+    // the environment then answers everything; drain
+    run.drain(&|_| vec![], &mut rng);
+    // every request sent after the sleep was counted as fresh: all of them must be young
+    if t0.elapsed() > timeout / 3 {
         return None;
     }
-    // answer the fresh ones, then the old ones; drain
-    run.drain(&|_| vec![], &mut rng);
     Some(run)
 }
 
